@@ -44,6 +44,8 @@ func allPairs() [][2]string {
 	}
 	for _, k := range unsignedKinds() {
 		out = append(out, [2]string{"dutydb", k.name})
+		// "+w": two queries for the key are already blocked when it is stored (both resolved in one pass of the store)
+		out = append(out, [2]string{"dutydb", k.name + "+w"})
 	}
 	out = append(out, [2]string{"dutydb", "SyncContributions@1"})
 	for _, k := range append(signedKinds(), legacySigned()...) {
@@ -252,16 +254,19 @@ type dutydbEnv struct {
 	pk    core.PubKey
 	entry int             // which entry of a plural value the readers ask for
 	seen  map[string]bool // keys of stored objects already attributed to a kept holder
+	waiters bool          // variant "+w": two readers block on the key before the first Store
+	pre     []any         // their answers, handed out by the first read passes
 }
 
 func init() {
 	envs["dutydb"] = func(variant string) env {
-		name, entry, _ := strings.Cut(variant, "@")
+		waiters := strings.HasSuffix(variant, "+w")
+		name, entry, _ := strings.Cut(strings.TrimSuffix(variant, "+w"), "@")
 		k, ok := findUnsigned(name)
 		if !ok || k.name == "AggregatedAttestation" {
 			return nil
 		}
-		e := &dutydbEnv{kind: k, db: dutydb.NewMemDB(newStubDeadliner()), pk: corePubKey(7), seen: map[string]bool{}}
+		e := &dutydbEnv{kind: k, db: dutydb.NewMemDB(newStubDeadliner()), pk: corePubKey(7), seen: map[string]bool{}, waiters: waiters}
 		if entry == "1" {
 			e.entry = 1
 		}
@@ -381,8 +386,39 @@ func (e *dutydbEnv) pass(x *ctx, port string, src *holder, dst int) (roots []any
 		}
 		v := set[e.pk]
 		ok = guard(x, port, func() {
+			var res []chan any
+			if e.waiters && e.last == nil {
+				for i := 0; i < 2; i++ {
+					ch := make(chan any, 1)
+					res = append(res, ch)
+					go func() {
+						wc, wcancel := context.WithTimeout(context.Background(), 20*time.Second)
+						defer wcancel()
+						defer func() {
+							if p := recover(); p != nil {
+								ch <- fmt.Errorf("panic: %v", p)
+							}
+						}()
+						ch <- e.await(wc, v)
+					}()
+				}
+				// both readers must be parked in the store before the value arrives (a late one is answered directly: harmless)
+				for t0 := time.Now(); time.Since(t0) < 2*time.Second; time.Sleep(time.Millisecond) {
+					sn := e.db.VerifSnapshot()
+					if len(sn.AttQueries)+len(sn.ProQueries)+len(sn.AggQueries)+len(sn.ContribQueries) >= 2 {
+						break
+					}
+				}
+			}
 			if err := e.db.Store(c, core.Duty{Slot: unsignedSlot(v), Type: e.kind.duty}, set); err != nil {
 				panic(err)
+			}
+			for _, ch := range res {
+				a := <-ch
+				if err, isErr := a.(error); isErr {
+					panic(err)
+				}
+				e.pre = append(e.pre, a)
 			}
 			e.last = deepCopy(newCopier(), v).(core.UnsignedData)
 			roots = e.keptRoots()
@@ -391,6 +427,11 @@ func (e *dutydbEnv) pass(x *ctx, port string, src *holder, dst int) (roots []any
 	}
 	if !src.kept || e.last == nil {
 		return nil, false, false, false
+	}
+	if len(e.pre) > 0 && port == e.readPort() {
+		var out any
+		out, e.pre = e.pre[0], e.pre[1:]
+		return []any{out}, false, false, true
 	}
 	viaVapi := dst%3 == 0 // every third read goes through the validatorapi component's method
 	var out any
@@ -460,6 +501,25 @@ func (e *dutydbEnv) pass(x *ctx, port string, src *holder, dst int) (roots []any
 		}
 	})
 	return []any{out}, false, false, ok
+}
+
+// await: the blocking query of the store for the key of v (the readers of variant "+w").
+func (e *dutydbEnv) await(c context.Context, v core.UnsignedData) any {
+	switch v := v.(type) {
+	case core.AttestationData:
+		return must(e.db.AwaitAttestation(c, uint64(v.Data.Slot), uint64(v.Duty.CommitteeIndex)))
+	case core.VersionedProposal:
+		return must(e.db.AwaitProposal(c, uint64(must(v.Slot()))))
+	case core.VersionedAggregatedAttestation:
+		data := must(v.Data())
+		return must(e.db.AwaitAggAttestation(c, uint64(data.Slot), must(data.HashTreeRoot()), must(v.CommitteeIndex())))
+	case core.SyncContribution:
+		return must(e.db.AwaitSyncContribution(c, uint64(v.Slot), v.SubcommitteeIndex, v.BeaconBlockRoot))
+	case core.SyncContributions:
+		sc := v[e.entry%len(v)]
+		return must(e.db.AwaitSyncContribution(c, uint64(sc.Slot), sc.SubcommitteeIndex, sc.BeaconBlockRoot))
+	}
+	panic(fmt.Sprintf("no query for %T", v))
 }
 
 // passw: validatorapi.Proposal queries the store through its registered function and then writes
